@@ -10,11 +10,13 @@ import vlib
 
 RULE = ("stream system: seeded histories (profile=roll: CA hierarchies of depth <= 3 under the embedded TA, entitlement "
         "grow/shrink/regain, child suspend/unsuspend/remove, ROA/ASPA/BGPsec changes, key-roll initiate/activate, syncs, "
-        "republish/renew tasks, second parent, parent removal) plus the hand-written scenarios in corpus/system against an "
+        "republish/renew tasks, second parent, parent removal; each case ends with `settle <child> <parent>` where a child of a CA "
+        "exists: four rounds of sync + pump and one further sync) plus the hand-written scenarios in corpus/system against an "
         "in-process krill; the Lean driver `syskeys` applies every stored command's events to the model state (apply is "
         "partial: none = panic arm), predicts the events of the modelled commands with the model's process, compares the "
         "model state with the observed CertAuth and CaObjects after every op and evaluates the theorem predicates on the "
-        "implementation's own state; distinct_nontrivial counts distinct (op kind, command/branch tags) pairs")
+        "implementation's own state - at a `settle` line Pair.converged (the predicate of exchange_converges*) on the observed "
+        "parent/child pair (SyncConverges) and 'the further sync stored no command' (SyncIdempotent); distinct_nontrivial counts distinct (op kind, command/branch tags) pairs")
 
 TRANSLATE = [("apply_domain", "ApplyDomain.lean")]
 
@@ -92,11 +94,14 @@ def judge(ctx, stream, traces, max_shrink=2):
     return found
 
 
-def corpus_traces_parallel(ctx, procs=12):
-    """vlib.corpus_traces for the `system` corpus, several harness processes at a time."""
+def corpus_traces_parallel(ctx, procs=12, extra_files=()):
+    """vlib.corpus_traces for the `system` corpus, several harness processes at a time.
+    `extra_files`: further scenario files (replays of recorded open findings that this property's
+    oracle must keep reporting: they print KNOWN-FINDING, anything else in them is a violation)."""
     import concurrent.futures
     cdir = vlib.VERIF / "corpus" / "system"
     files = sorted(cdir.glob("*.ops")) if cdir.exists() else []
+    files += [vlib.VERIF / f for f in extra_files]
 
     def one(f):
         tr = ctx.work / f"corpus-{f.stem}.trace"
@@ -128,7 +133,7 @@ def private_kmodel(ctx):
         ctx.log(f"could not copy the model driver: {e}")
 
 
-def run(ctx, prop_module, mode, assumptions, translate=(), extra_modules=()):
+def run(ctx, prop_module, mode, assumptions, translate=(), extra_modules=(), finding_scenarios=()):
     vlib.translate(ctx, TRANSLATE + list(translate))
     vlib.prove(ctx, [prop_module] + list(extra_modules))
     private_kmodel(ctx)
@@ -136,7 +141,7 @@ def run(ctx, prop_module, mode, assumptions, translate=(), extra_modules=()):
     stream = f"syskeys {mode}"
     if vlib.build_harness(ctx, ["system"]):
         ctx.log("harness built; running corpus")
-        traces = corpus_traces_parallel(ctx)
+        traces = corpus_traces_parallel(ctx, extra_files=finding_scenarios)
         ctx.log(f"{len(traces)} corpus traces; generating")
         n, length = (24, 14) if ctx.tier == "quick" else (720, 30)
         traces += vlib.parallel_traces(ctx, "system", n, length, extra_args=["profile=roll"])
